@@ -59,9 +59,25 @@ where
         // check in range, otherwise return the first or second last index
         // this allows for extrapolation
         if x <= self[0] {
+            #[cfg(ndarray_interp_verif)]
+            crate::verif_hooks::emit(crate::verif_hooks::Event::Lookup {
+                path: "ClampLo",
+                len: self.len(),
+                guess: 0,
+                steps: 0,
+                result: 0,
+            });
             return 0;
         }
         if x >= self[self.len() - 1] {
+            #[cfg(ndarray_interp_verif)]
+            crate::verif_hooks::emit(crate::verif_hooks::Event::Lookup {
+                path: "ClampHi",
+                len: self.len(),
+                guess: 0,
+                steps: 0,
+                result: self.len() - 2,
+            });
             return self.len() - 2;
         }
 
@@ -86,6 +102,14 @@ where
         let mid_x = self[mid_idx];
 
         if mid_x <= x && x < self[mid_idx + 1] {
+            #[cfg(ndarray_interp_verif)]
+            crate::verif_hooks::emit(crate::verif_hooks::Event::Lookup {
+                path: "GuessHit",
+                len: self.len(),
+                guess: mid_idx,
+                steps: 0,
+                result: mid_idx,
+            });
             return mid_idx;
         }
         if mid_x <= x {
@@ -95,9 +119,15 @@ where
             range.1 = mid_idx;
         }
 
+        #[cfg(ndarray_interp_verif)]
+        let (verif_guess, mut verif_steps) = (mid_idx, 0usize);
         // the spacing was apparently not even, do binary search
         // O(log n)
         while range.0 + 1 < range.1 {
+            #[cfg(ndarray_interp_verif)]
+            {
+                verif_steps += 1;
+            }
             let mid_idx = (range.1 - range.0) / 2 + range.0;
             let mid_x = self[mid_idx];
 
@@ -107,6 +137,14 @@ where
                 range.1 = mid_idx;
             }
         }
+        #[cfg(ndarray_interp_verif)]
+        crate::verif_hooks::emit(crate::verif_hooks::Event::Lookup {
+            path: "Search",
+            len: self.len(),
+            guess: verif_guess,
+            steps: verif_steps,
+            result: range.0,
+        });
         range.0
     }
 }
